@@ -63,4 +63,18 @@ PROPS = {
                         "OPRFPaddingDp::new / get_shift stubbed in the mapping harnesses (shift symbolic); find_smallest_n stubbed to 'some n >= sensitivity' in the validator harness",
                         "logging (tracing) and alloc::fmt::format are stubbed out"],
     },
+    "C13": {
+        "design_ref": "DESIGN.md §3 C13",
+        "functions_encoded": ["helpers::gateway::send::SendChannelConfig::new_with", "utils::power_of_two::{NonZeroU32PowerOfTwo::try_from, get, to_non_zero_usize, non_zero_prev_power_of_two}"],
+        "bounds": "active = 2^k for k <= 20, configured read size 1..=2^24, record sizes {1,2,3,8,14,16,20,32,4095,4096} (instantiated), all three TotalRecords kinds; all usize for the power-of-two helpers",
+        "outside_claim": "everything about messages in flight: channel routing, batching, rendezvous, deadlock-freedom of running tasks (tokio, DashMap, spawned streams)",
+        "assumptions": ["logging (tracing) and alloc::fmt::format are stubbed out"],
+    },
+    "C18": {
+        "design_ref": "DESIGN.md §3 C18",
+        "functions_encoded": ["query::state::min_status", "query::state::QueryState::transition", "query::state::{RunningQueries::handle, QueryHandle::{set_state,status,remove_query_on_drop}, RemoveQuery::{restore,drop}}", "From<&QueryState> for QueryStatus"],
+        "bounds": "all status pairs/triples; all (current, target) pairs over the constructible states {Empty, Preparing, AwaitingInputs, AwaitingCompletion}; every history of 2 store operations out of 6 kinds",
+        "outside_claim": "Processor's async API (new_query, prepare, inputs, complete, kill), coordinator/follower and shard fan-out; the Running and Completed states as transition targets (tokio JoinHandle; Box<dyn> drop glue); (Empty -> AwaitingCompletion/Completed), which panics by documented design and is not reachable through the Processor API",
+        "assumptions": ["logging (tracing) and alloc::fmt::format are stubbed out"],
+    },
 }
